@@ -170,6 +170,10 @@ func main() {
 			"register operands are drawn from R0..R31 and R255 (the only names the shipped reader's table knows); one canonical probe leaves that set and is keyed separately",
 			"'enable lineinfo' is always 0 (the reader has no support for the extra line_num column); every memory instruction has at least one active thread",
 			"addresses are serialised with a 0x prefix as accel-sim's tracer writes them (and as in the shipped sample trace)",
+			"every generated trace directory is written in a seeded byte-level form (form.go: LF/CRLF, final newline present/absent, blank lines, trailing blanks/tabs, leading blanks and tabs on instruction lines, " +
+				"'#' lines absent/extra, kernel file numbering, one ~50 KB line), separately for kernelslist.g and the kernel files; only variations the reader's own code accepts are produced " +
+				"(no blank-only lines with spaces, no leading blanks outside instruction lines, no trailing blanks on kernel entries of the list, no '#' lines between warps, no line >= 64 KiB); " +
+				"a parse violation on a non-canonical form is re-run per dimension and keyed C20|parse|form:<dimension>|...",
 			"Instruction.OpCode is accepted as nil: the reader's opcode assignment is commented out in the source; a non-nil value must equal the serialised opcode",
 			"thread-block and warp ids are unexported in the reader's structures and are not compared; blocks and warps are compared positionally in file order",
 			"termination bound = 50*(instructions+warps+blocks+kernels)+10^4 engine events; no wall clock in any verdict",
@@ -184,6 +188,13 @@ func main() {
 			"parse_mem_insts_with_dest": 300, "parse_mem_insts_without_dest": 300, "parse_memcpy_lines_compared": 50,
 			"cases_blocks_gt_sms": 30, "cases_devices_gt_kernels": 10, "cases_a100_shape": 10, "cases_shipped_sample_trace": 3,
 			"cases_with_empty_warp": 10, "warps_delivered": 2000,
+			// serialisation forms (traces read back equal, per dimension; single + multi family)
+			"form_canonical_read_equal": 30, "form_list-crlf_read_equal": 30, "form_list-no-final-newline_read_equal": 40, "form_list-blank-lines_read_equal": 30,
+			"form_list-memcpy-trailing-ws_read_equal": 30, "form_names-multi-digit_read_equal": 30, "form_names-descending_read_equal": 30,
+			"form_crlf_read_equal": 30, "form_no-final-newline_read_equal": 40, "form_blank-none_read_equal": 30, "form_blank-many_read_equal": 30,
+			"form_trailing-ws_read_equal": 30, "form_inst-leading-ws-and-tabs_read_equal": 30, "form_comments-none_read_equal": 30, "form_comments-extra_read_equal": 30,
+			"form_long-line-below-64KiB_read_equal": 10, "form_list_last_entry_unterminated_kernel_read_equal": 20,
+			"form_list_last_entry_unterminated_memcpy_read_equal": 5, "form_list_single_unterminated_line_read_equal": 3,
 			// usage shapes
 			"multi_scenarios_fully_conserved": 100, "multi_engine_stops_conserved_with_work": 150,
 			"multi_scenarios_multi-benchmark": 20, "multi_scenarios_rerun": 20, "multi_scenarios_two-platforms": 20, "multi_scenarios_driver-direct": 20,
